@@ -882,6 +882,9 @@ func runC15(c *Ctx) {
 
 	// helper extraction is undone first: the rules below look at the named functions with their helpers inlined
 	c15Normalise(c, []string{"vxfw"}, c15Anchors)
+	// the package may have been re-type-checked: the side tables derived from the old syntax trees and types.Info
+	// (single-definition local aliases used by canonPath, accessor summaries) are rebuilt, as after the global pass
+	installAccessorResolver(c.P)
 	pk := c.P.Pkg("vxfw")
 	if pk == nil {
 		c.undecided("C15.a", "vxfw", 0, "package vxfw not found")
@@ -3696,6 +3699,175 @@ func c15LinRes(info *types.Info, defs *c15Defs, e ast.Expr) c15Lin {
 	return l
 }
 
+// c15ReversalLoop: does lp, whose body exchanges x[a] and x[b], reverse a list of length n? That is:
+//   - a+b is len-1 when the loop starts and every iteration keeps it (the two indices are mirror images),
+//   - one of them starts at 0 and grows by one per iteration,
+//   - the loop runs exactly while that one is below its mirror image (lo < hi, lo <= hi, lo < len/2 — all the same set
+//     of exchanges for integers), and nothing in the body moves the counters or replaces the list.
+func c15ReversalLoop(info *types.Info, defs *c15Defs, lp *ast.ForStmt, a, b, n c15Lin, isList func(ast.Expr) bool) bool {
+	if lp.Init == nil || lp.Cond == nil || lp.Post == nil {
+		return false
+	}
+	type lv struct {
+		init  c15Lin
+		delta int64
+		known bool // init known
+		moved bool // delta known
+	}
+	vars := map[string]*lv{}
+	objs := map[types.Object]bool{}
+	get := func(x ast.Expr) *lv {
+		id, ok := unparen(x).(*ast.Ident)
+		if !ok {
+			return nil
+		}
+		o := info.ObjectOf(id)
+		if o == nil {
+			return nil
+		}
+		objs[o] = true
+		key := termOf(info, id).ID
+		if vars[key] == nil {
+			vars[key] = &lv{}
+		}
+		return vars[key]
+	}
+	ini, ok := lp.Init.(*ast.AssignStmt)
+	if !ok || len(ini.Lhs) != len(ini.Rhs) || (ini.Tok != token.DEFINE && ini.Tok != token.ASSIGN) {
+		return false
+	}
+	for i, l := range ini.Lhs {
+		v := get(l)
+		if v == nil || !isIntegerExpr(info, ini.Rhs[i]) {
+			return false
+		}
+		v.init, v.known = c15LinRes(info, defs, ini.Rhs[i]), true
+	}
+	switch p := lp.Post.(type) {
+	case *ast.IncDecStmt:
+		v := get(p.X)
+		if v == nil {
+			return false
+		}
+		v.delta, v.moved = 1, true
+		if p.Tok == token.DEC {
+			v.delta = -1
+		}
+	case *ast.AssignStmt:
+		if len(p.Lhs) != len(p.Rhs) {
+			return false
+		}
+		for i, l := range p.Lhs {
+			v := get(l)
+			if v == nil || v.moved {
+				return false
+			}
+			switch p.Tok {
+			case token.ADD_ASSIGN, token.SUB_ASSIGN:
+				k, isC := constInt(info, p.Rhs[i])
+				if !isC {
+					return false
+				}
+				if p.Tok == token.SUB_ASSIGN {
+					k = -k
+				}
+				v.delta, v.moved = k, true
+			case token.ASSIGN:
+				d := c15LinOf(info, p.Rhs[i]).add(c15LinOf(info, l), -1)
+				if len(d.co) != 0 {
+					return false
+				}
+				v.delta, v.moved = d.k, true
+			default:
+				return false
+			}
+		}
+	default:
+		return false
+	}
+	// the body neither moves a counter nor replaces the list (exchanging elements is all it may do to it)
+	if assignsAny(info, lp.Body, objs) {
+		return false
+	}
+	replaced := false
+	inspectNoLit(lp.Body, func(m ast.Node) bool {
+		if as, ok := m.(*ast.AssignStmt); ok {
+			for _, l := range as.Lhs {
+				if isList(l) {
+					replaced = true
+				}
+			}
+		}
+		return !replaced
+	})
+	if replaced {
+		return false
+	}
+	atStart := func(l c15Lin) (c15Lin, bool) {
+		out := c15Const(l.k)
+		for t, co := range l.co {
+			if v, isVar := vars[t]; isVar {
+				if !v.known {
+					return out, false
+				}
+				out = out.add(v.init, co)
+			} else {
+				out = out.add(c15Lin{co: map[string]int64{t: 1}}, co)
+			}
+		}
+		return out, true
+	}
+	perIter := func(l c15Lin) int64 {
+		var d int64
+		for t, co := range l.co {
+			if v, isVar := vars[t]; isVar {
+				d += co * v.delta
+			}
+		}
+		return d
+	}
+	sum := a.add(b, 1)
+	s0, ok := atStart(sum)
+	if !ok || s0.canon() != n.plus(-1).canon() || perIter(sum) != 0 {
+		return false
+	}
+	lo, hi := a, b
+	if l0, ok := atStart(lo); !ok || len(l0.co) != 0 || l0.k != 0 || perIter(lo) != 1 {
+		lo, hi = b, a
+		if l0, ok := atStart(lo); !ok || len(l0.co) != 0 || l0.k != 0 || perIter(lo) != 1 {
+			return false
+		}
+	}
+	// bound: lo < hi or lo <= hi, modulo the invariant lo+hi = len-1; or lo < len/2 (any spelling of the comparison)
+	zero := sum.add(n.plus(-1), -1) // identically 0 during the loop
+	atoms, isConj := c15Conj(c15Formula(info, lp.Cond))
+	if !isConj || len(atoms) != 1 {
+		return false
+	}
+	for _, target := range []c15Lin{lo.add(hi, -1).plus(1), lo.add(hi, -1)} {
+		for t := int64(-2); t <= 2; t++ {
+			if atoms[0].canon() == target.add(zero, t).canon() {
+				return true
+			}
+		}
+	}
+	half := false
+	ast.Inspect(lp.Cond, func(m ast.Node) bool {
+		q, ok := m.(*ast.BinaryExpr)
+		if !ok || q.Op != token.QUO {
+			return true
+		}
+		if v, isC := constInt(info, q.Y); isC && v == 2 && c15LinRes(info, defs, q.X).canon() == n.canon() {
+			// floor(len/2) is one opaque term of the condition: lo < len/2  <=>  lo - len/2 + 1 <= 0
+			if atoms[0].canon() == lo.add(c15LinOf(info, q), -1).plus(1).canon() {
+				half = true
+			}
+		}
+		return true
+	})
+	return half
+}
+
 func (e *c15Env) ruleI() {
 	c, info := e.c, e.info
 	// ---- childHasFocus
@@ -3879,22 +4051,19 @@ func (e *c15Env) ruleI() {
 		}
 		a, b := c15LinRes(info, defs, idx[0]), c15LinRes(info, defs, idx[1])
 		ra, rb := c15LinRes(info, defs, idx[2]), c15LinRes(info, defs, idx[3])
-		return a.canon() == rb.canon() && b.canon() == ra.canon() && a.add(b, 1).canon() == lenPath.plus(-1).canon()
+		return a.canon() == rb.canon() && b.canon() == ra.canon() && a.canon() != b.canon()
 	}) {
 		swaps = append(swaps, h)
 	}
 	okRev := len(swaps) == 1 && len(c15EnclosingLoops(e.parents, swaps[0].Node)) == 1
 	if okRev {
-		// i runs over the first half: i < len/2 (any spelling whose bound is len(path)/2)
+		// the loop exchanges exactly the mirror pairs (0,len-1), (1,len-2), ... of the first half, whatever way the two
+		// indices are spelled (one counter and len-1-i, or two counters moving towards each other)
+		as := swaps[0].Node.(*ast.AssignStmt)
+		a := c15LinRes(info, defs, unparen(as.Lhs[0]).(*ast.IndexExpr).Index)
+		b := c15LinRes(info, defs, unparen(as.Lhs[1]).(*ast.IndexExpr).Index)
 		lp, _ := c15LoopOf(e.parents, swaps[0].Node).(*ast.ForStmt)
-		okRev = lp != nil && lp.Cond != nil && containsNode(lp.Cond, func(n ast.Node) bool {
-			be, ok := n.(*ast.BinaryExpr)
-			if !ok || be.Op != token.QUO {
-				return false
-			}
-			v, isC := constInt(info, be.Y)
-			return isC && v == 2 && c15LinRes(info, defs, be.X).canon() == lenPath.canon()
-		})
+		okRev = lp != nil && c15ReversalLoop(info, defs, lp, a, b, lenPath, isPath)
 		okRev = okRev && !g.ReachesAvoiding(swaps[0].Loc, ap.Loc, nil)
 	}
 	c.check(okRev, "C15.i", name+"/path reversed to root-first order after the root was added", fd.Pos(), "path[i] <-> path[len-1-i] for the first half, after the append",
